@@ -1,4 +1,117 @@
-import SafeC.Models.Copy
-/-! Property theorems for C13 (see DESIGN.md §4). -/
+import SafeC.Models.Handlers
+/-!
+# C13 — constraint-handler registration is a per-thread override of a global
+
+Histories are lists of operations, most recent first (`runR`).  Every C operation is a single
+aligned word load or store, so under sequential consistency every interleaving of N threads *is*
+some history; the "schedules" dimension reduces to "all histories" (assumption recorded in the
+evidence).  All theorems are for every history, by induction on it.
+-/
 namespace SafeC.Props.C13
+open SafeC SafeC.Handlers
+
+/-- most recent process-wide registration of kind `k` (NULL ↦ default) -/
+def lastSet (k : Kind) : List Op → Option Hid
+  | [] => none
+  | .set _ k' h :: older => if k' = k then some (reg h) else lastSet k older
+  | _ :: older => lastSet k older
+
+/-- most recent thread-local registration of kind `k` made by thread `t` since `t` was created -/
+def lastThrd (t : Tid) (k : Kind) : List Op → Option Hid
+  | [] => none
+  | .thrdSet t' k' h :: older => if t' = t ∧ k' = k then some (reg h) else lastThrd t k older
+  | .spawn _ c :: older => if c = t then none else lastThrd t k older
+  | _ :: older => lastThrd t k older
+
+/-- the two slots hold exactly the most recent registrations -/
+theorem slots (hist : List Op) :
+    (∀ k, (runR hist).glob k = lastSet k hist) ∧ (∀ t k, (runR hist).tl t k = lastThrd t k hist) := by
+  induction hist with
+  | nil => exact ⟨fun _ => rfl, fun _ _ => rfl⟩
+  | cons op older ih =>
+    obtain ⟨ihg, iht⟩ := ih
+    cases op with
+    | set t' k' h =>
+      refine ⟨fun k => ?_, fun t k => ?_⟩
+      · simp only [runR, step, lastSet]
+        by_cases hk : k = k'
+        · subst hk; simp
+        · have : ¬ k' = k := fun e => hk e.symm
+          simp [hk, this, ihg]
+      · simp only [runR, step, lastThrd]; exact iht t k
+    | thrdSet t' k' h =>
+      refine ⟨fun k => ?_, fun t k => ?_⟩
+      · simp only [runR, step, lastSet]; exact ihg k
+      · simp only [runR, step, lastThrd]
+        by_cases hk : t = t' ∧ k = k'
+        · obtain ⟨rfl, rfl⟩ := hk; simp
+        · have : ¬ (t' = t ∧ k' = k) := fun e => hk ⟨e.1.symm, e.2.symm⟩
+          simp [hk, this, iht]
+    | violate t' k' =>
+      exact ⟨fun k => by simp only [runR, step, lastSet]; exact ihg k,
+             fun t k => by simp only [runR, step, lastThrd]; exact iht t k⟩
+    | spawn p c =>
+      refine ⟨fun k => by simp only [runR, step, lastSet]; exact ihg k, fun t k => ?_⟩
+      simp only [runR, step, lastThrd]
+      by_cases hc : t = c
+      · subst hc; simp
+      · have : ¬ c = t := fun e => hc e.symm
+        simp [hc, this, iht]
+
+/-- **Dispatch rule.** After any history a violation on thread `t` runs `t`'s own most recent
+registration if it made one since it was created, otherwise the most recent process-wide one,
+otherwise the default handler. -/
+theorem dispatch (hist : List Op) (t : Tid) (k : Kind) :
+    invoked (runR hist) t k = ((lastThrd t k hist).orElse fun _ => lastSet k hist).getD 0 := by
+  obtain ⟨hg, ht⟩ := slots hist
+  unfold invoked
+  rw [ht t k, hg k]
+  cases lastThrd t k hist <;> cases lastSet k hist <;> rfl
+
+/-- registering returns the previously registered handler of the same kind and scope -/
+theorem set_returns_prev (hist : List Op) (t : Tid) (k : Kind) (h : Option Hid) :
+    (step (runR hist) (.set t k h)).2 = .prev (lastSet k hist) := by
+  simp only [step]; rw [(slots hist).1 k]
+
+theorem thrdSet_returns_prev (hist : List Op) (t : Tid) (k : Kind) (h : Option Hid) :
+    (step (runR hist) (.thrdSet t k h)).2 = .prev (lastThrd t k hist) := by
+  simp only [step]; rw [(slots hist).2 t k]
+
+/-- registering NULL selects the default (handler 0), in either scope -/
+theorem null_selects_default_thrd (hist : List Op) (t : Tid) (k : Kind) :
+    invoked (runR (.thrdSet t k none :: hist)) t k = 0 := by
+  rw [dispatch]; simp [lastThrd, reg]
+
+theorem null_selects_default_glob (hist : List Op) (t t' : Tid) (k : Kind)
+    (hno : lastThrd t k hist = none) :
+    invoked (runR (.set t' k none :: hist)) t k = 0 := by
+  rw [dispatch]; simp [lastThrd, lastSet, hno, reg]
+
+/-- string and memory registrations are independent: an operation on kind `k'` never changes which
+handler a violation of kind `k ≠ k'` runs -/
+theorem kinds_independent (hist : List Op) (t t' : Tid) (k k' : Kind) (h : Option Hid) (hne : k' ≠ k) :
+    invoked (runR (.set t' k' h :: hist)) t k = invoked (runR hist) t k ∧
+    invoked (runR (.thrdSet t' k' h :: hist)) t k = invoked (runR hist) t k := by
+  constructor <;> (rw [dispatch, dispatch]; simp [lastThrd, lastSet, hne])
+
+/-- a thread-local registration by `t'` is never used on behalf of another thread `t` -/
+theorem tl_isolated (hist : List Op) (t t' : Tid) (k k' : Kind) (h : Option Hid) (hne : t' ≠ t) :
+    invoked (runR (.thrdSet t' k' h :: hist)) t k = invoked (runR hist) t k := by
+  rw [dispatch, dispatch]; simp [lastThrd, lastSet, hne]
+
+/-- a freshly created thread has no thread-local registration, whoever created it -/
+theorem spawn_fresh (hist : List Op) (p c : Tid) (k : Kind) :
+    invoked (runR (.spawn p c :: hist)) c k = (lastSet k hist).getD 0 := by
+  rw [dispatch]; simp [lastThrd, lastSet]
+
+/-- a process-wide registration is seen by every thread without a registration of its own -/
+theorem global_seen (hist : List Op) (t t' : Tid) (k : Kind) (h : Hid) (hno : lastThrd t k hist = none) :
+    invoked (runR (.set t' k (some h) :: hist)) t k = h := by
+  rw [dispatch]; simp [lastThrd, lastSet, hno, reg]
+
+/-- non-vacuity / sanity: a concrete history -/
+example : invoked (runR [.violate 1 .str, .thrdSet 1 .str (some 2), .spawn 0 1, .thrdSet 0 .str (some 3),
+    .set 0 .str (some 1)]) 1 .str = 2 := by decide
+example : invoked (runR [.spawn 0 1, .thrdSet 0 .str (some 3), .set 0 .str (some 1)]) 1 .str = 1 := by decide
+
 end SafeC.Props.C13
